@@ -563,3 +563,46 @@ LEAF_SCHEMAS = [
 
 UNRELATED = [None, True, 0, 1, -1, 1.5, "", "a", b"a", [], [1], {}, {"a": 1}, UUIDS[0], DATETIMES[0],
              DATES[0], [None], {"a": None}, 2 ** 70, math.nan]
+
+
+# ------------------------------------------------------------------ plain values
+def gen_plain(r, depth, nan=0.02):
+    """A plain value (None/bool/int/float/str/bytes/uuid4/datetime/date/list/dict)."""
+    c = r.randrange(13 if depth > 0 else 9)
+    if depth > 0 and r.random() < 0.4:
+        c = r.choice([9, 10, 11, 12])
+    if c == 0:
+        return None
+    if c == 1:
+        return r.choice([True, False])
+    if c == 2:
+        return r.choice(INTS if r.random() < 0.3 else SMALL_INTS)
+    if c == 3:
+        return _lit_float(r, nan)
+    if c == 4:
+        return r.choice(STRS)
+    if c == 5:
+        return r.choice([b"", b"ab", b"\x00\xff"])
+    if c == 6:
+        return r.choice(UUIDS)
+    if c == 7:
+        return r.choice(DATETIMES)
+    if c == 8:
+        return r.choice(DATES)
+    if c in (9, 10):
+        return [gen_plain(r, depth - 1, nan) for _ in range(r.randint(0, 3))]
+    ks = r.sample(KEYS + [True, 2.0, b"k"], r.randint(0, 3))
+    out = {}
+    for k in ks:
+        out[k] = gen_plain(r, depth - 1, nan)
+    return out
+
+
+NONPLAIN = [s for s in _ZOO_SRC if s not in ("True", "False", "None", "0", "1", "''", "b''", "[]", "{}", "1.0",
+                                             "-0.0", "[[]]", "{'a': {}}", "float('inf')", "float('-inf')",
+                                             "float('nan')", "10**400", "-10**400", "_IntSub(7)", "_StrSub('ab')",
+                                             "_FloatSub(1.5)", "_ListSub([1])", "_DictSub({'a': 1})", "_IntColor.RED",
+                                             "datetime.datetime(2020, 1, 2, 3, 4, 5)", "datetime.date(2020, 1, 2)",
+                                             "datetime.datetime(2020, 1, 2, 3, 4, 5, tzinfo=datetime.timezone.utc)",
+                                             "{None: 1}", "{1: 1}", "{b'k': 1}", "{1.5: 2}", "{(1, 2): 1}",
+                                             "{frozenset(): 1}")]
